@@ -372,7 +372,7 @@ func genCorruptArchive(t *rapid.T) BytesCase {
 		// the hostile part sits one level down: the control member is a tar whose './control' entry
 		// is a sparse file (old GNU 'S' header: a few bytes stored, a huge logical size the tar reader
 		// fills with NULs it makes up), a directory, a symlink, or declares more data than there is
-		kind := rapid.SampledFrom([]string{"sparse-2^20", "sparse-2^40", "sparse-2^62", "dir", "symlink", "short", "pax-sparse-control", "pax-sparse-other-before", "pax-sparse-other-after", "size-claim-2^62", "size-claim-2^55", "size-claim-other-2^62", "many-continuation-lines"}).Draw(t, "tarkind")
+		kind := rapid.SampledFrom([]string{"sparse-2^20", "sparse-2^40", "sparse-2^62", "dir", "symlink", "short", "pax-sparse-control", "pax-sparse-other-before", "pax-sparse-other-after", "size-claim-2^62", "size-claim-2^55", "size-claim-other-2^62", "many-continuation-lines", "huge-dependency-token"}).Draw(t, "tarkind")
 		note = "tarlevel:" + kind
 		var ctl []byte
 		gzControl := false
@@ -423,6 +423,20 @@ func genCorruptArchive(t *rapid.T) BytesCase {
 				ctl = append(claim("./md5sums", 1<<62), rawTarEntry("./control", '0', text)...)
 			}
 			ctl = append(ctl, make([]byte, 1024)...)
+		case "huge-dependency-token":
+			// ... or into a relationship field made of ONE token of 600 000 to 1 000 000 bytes - a
+			// package name, a version, an architecture, a qualifier, a substvar, a profile
+			n := rapid.IntRange(600000, 1000000).Draw(t, "tokenLen")
+			tok := strings.Repeat(rapid.SampledFrom([]string{"a", "1", "x"}).Draw(t, "tokenByte"), n)
+			field := rapid.SampledFrom([]string{"Depends: %s", "Depends: a (>= %s)", "Depends: a [%s]", "Pre-Depends: a:%s", "Depends: ${%s}", "Suggests: a <%s>", "Depends: b, a (>= 1) [amd64 %s] <x>"}).Draw(t, "tokenIn")
+			text := "Package: x\nVersion: 1\nArchitecture: all\nMaintainer: A <a@b.c>\n" + fmt.Sprintf(field, tok) + "\nDescription: d\n"
+			tarball, _ := buildTar([]TarFile{{Name: "./control", Type: "reg", Content: []byte(text)}})
+			var gz bytes.Buffer
+			zw := gzip.NewWriter(&gz)
+			zw.Write(tarball)
+			zw.Close()
+			ctl = gz.Bytes()
+			gzControl = true
 		case "many-continuation-lines":
 			// a few KiB of gzip that unfold into a control file of one field with half a million
 			// continuation lines: work that grows with the square of that number does not finish
@@ -538,7 +552,7 @@ func genCorruptArchive(t *rapid.T) BytesCase {
 
 var specC15Corrupt = Register(&Spec[BytesCase]{
 	Prop: "C15", Name: "corrupt",
-	Rule:  "structured corruption of valid artefacts (C13 archives and C14 packages with stored/gzip members): one header column (name, mtime, uid, gid, mode, size, magic) of one member overwritten with negative, '+'-signed, huge, blank, non-numeric, NUL, hex or overflowing text; 2..4 numeric columns of one header made non-numeric at once; a member renamed '//' and later ones '/<offset>' (GNU long-name table and references); the control member replaced by a stored tar whose './control' entry is a GNU sparse file of 2^20 / 2^40 / 2^62 made-up bytes, a directory, a symlink, or cut short, or which carries - as ./control or next to it - a PAX-style sparse entry of 2^40 made-up bytes, or a regular entry (./control or the file in front of it) whose base-256 size field claims 2^55 or 2^62 bytes, or replaced by a few KiB of gzip whose './control' is one field with 500 000 to 800 000 continuation lines (it has to be read in a time that does not grow with the square of that); one or both header magic bytes changed; truncation at a generated offset; a member duplicated (same or changed content), members reordered, a decoy control.*/data.* member with another extension (optionally a tar with 'Package: evil') inserted; a padding byte added or removed; a global magic byte flipped. Oracle: no panic; the Next() loop ends in io.EOF or an error within len/60+2 steps; every returned member sits behind a header ending 0x60 0x0A, has Size >= 0 and a reader delivering exactly Size bytes; deb.Load stays within a read budget and returns within 20 s; seven iterations / loads of the same bytes, and one through an io.SectionReader window of a larger buffer with a valid archive behind it, give the same outcome (the same error text, or the same extensions, control identity and member index). Non-trivial: >= 1 member returned or a first header parsed; distinct by bytes.",
+	Rule:  "structured corruption of valid artefacts (C13 archives and C14 packages with stored/gzip members): one header column (name, mtime, uid, gid, mode, size, magic) of one member overwritten with negative, '+'-signed, huge, blank, non-numeric, NUL, hex or overflowing text; 2..4 numeric columns of one header made non-numeric at once; a member renamed '//' and later ones '/<offset>' (GNU long-name table and references); the control member replaced by a stored tar whose './control' entry is a GNU sparse file of 2^20 / 2^40 / 2^62 made-up bytes, a directory, a symlink, or cut short, or which carries - as ./control or next to it - a PAX-style sparse entry of 2^40 made-up bytes, or a regular entry (./control or the file in front of it) whose base-256 size field claims 2^55 or 2^62 bytes, or replaced by a few KiB of gzip whose './control' is one field with 500 000 to 800 000 continuation lines (it has to be read in a time that does not grow with the square of that), or whose Depends is one token of 600 000 to 1 000 000 bytes; one or both header magic bytes changed; truncation at a generated offset; a member duplicated (same or changed content), members reordered, a decoy control.*/data.* member with another extension (optionally a tar with 'Package: evil') inserted; a padding byte added or removed; a global magic byte flipped. Oracle: no panic; the Next() loop ends in io.EOF or an error within len/60+2 steps; every returned member sits behind a header ending 0x60 0x0A, has Size >= 0 and a reader delivering exactly Size bytes; deb.Load stays within a read budget and returns within 20 s; seven iterations / loads of the same bytes, and one through an io.SectionReader window of a larger buffer with a valid archive behind it, give the same outcome (the same error text, or the same extensions, control identity and member index). Non-trivial: >= 1 member returned or a first header parsed; distinct by bytes.",
 	Check: checkBytesCase,
 })
 
